@@ -453,7 +453,12 @@ func genC18(c *Ctx) {
 				twin.BWT = !twin.BWT
 			}
 			ttok := encPos(tak.VerifFromRaw(twin))
-			if c.R.Chance(1, 2) {
+			if c.R.Chance(1, 4) {
+				// right after a search on the same engine whose context has ended since
+				c.Emit("evalmm " + tok + " s")
+				c.Emit("evalmm " + ttok)
+				c.Count("evalmm.after-search")
+			} else if c.R.Chance(1, 2) {
 				c.Emit("evalmm " + tok)
 				c.Emit("evalmm " + ttok)
 			} else {
